@@ -112,7 +112,6 @@ def check_program(node, rec=None):
             except Violation as v:
                 raise Violation(v.sig, f'program: {progs.show(late_node)}, derived AFTER keys()/items()/lookups '
                                        f'were used on its input\n{v.detail}')
-        break  # the outermost eligible stage is enough per program
     m_root = ev(node)
     if m_root.unordered and m_root.keys is not None and m_root.cap_items == 'req' and not m_root.taint \
             and 'local_shuffle' not in progs.ops(node):
